@@ -32,6 +32,14 @@ The model describes the behaviour the property demands.  In particular the
 resampling loop keeps, for every row, the draw that produced the row
 (`Rows.draw`); the unrepaired `OpenAIEvolutionStrategy.ask` overwrites
 `self.noise` with the draws of the *last* round only (defect D14).
+
+Where the property is silent the model follows the code as written: the `pc`
+update uses `y = mean' − mean` without the `1/σ` of Hansen's purecma, the
+rank-one term of `_calc_cov_update` carries `c1` twice, `OpenAIEvolutionStrategy.tell`
+does not read `num_parents`, and LM-MA-ES with `batch_size = solution_dim` has
+`csigma = 2` (its path stays zero).  None of these affects the clauses proved
+in `PyribsProofs/C18.lean` (positive semi-definiteness holds for every
+non-negative rank-one coefficient).
 -/
 namespace Pyribs.Opt
 
